@@ -142,6 +142,14 @@ struct Net : sim::configuration
 	// ---- built objects
 	std::map<ip::address, Chain> out_chain, in_chain;
 	Chain core_chain;
+	// survives clear(): which probes surround which hop, for the oracles
+	struct ChainInfo { std::string label; std::vector<HopSpec> specs; std::vector<std::shared_ptr<Probe>> probes; };
+	std::vector<ChainInfo> infos;
+	// when set, every ordered (src, dst) pair gets its own core chain objects
+	// (so the two directions of a connection do not share a queue)
+	bool per_pair_core = false;
+	std::map<std::pair<ip::address, ip::address>, std::vector<HopSpec>> pair_spec;
+	std::map<std::pair<ip::address, ip::address>, Chain> pair_chain;
 	std::vector<std::shared_ptr<Probe>> all_probes;
 	std::vector<std::shared_ptr<FaultSink>> fault_sinks;
 	std::map<void const*, uint64_t> channel_ids;
@@ -223,6 +231,7 @@ struct Net : sim::configuration
 			++k;
 			add_probe(k);
 		}
+		infos.push_back(ChainInfo{label, specs, c.probes});
 		return c;
 	}
 
@@ -242,11 +251,24 @@ struct Net : sim::configuration
 		out_chain.clear();
 		in_chain.clear();
 		core_chain = Chain();
+		pair_chain.clear();
 		fault_sinks.clear();
 		channel_keep.clear();
 		// probe logs stay readable through all_probes
 	}
-	sim::route channel_route(ip::address, ip::address) override { return core_chain.as_route(); }
+	sim::route channel_route(ip::address src, ip::address dst) override
+	{
+		if (!per_pair_core) return core_chain.as_route();
+		auto key = std::make_pair(src, dst);
+		auto it = pair_chain.find(key);
+		if (it == pair_chain.end())
+		{
+			auto sp = pair_spec.find(key);
+			it = pair_chain.emplace(key, build_chain(sp == pair_spec.end() ? core_spec : sp->second
+				, "core." + src.to_string() + ">" + dst.to_string())).first;
+		}
+		return it->second.as_route();
+	}
 	sim::route incoming_route(ip::address a) override
 	{
 		auto it = in_chain.find(a);
